@@ -87,6 +87,7 @@ KINDS = [
     ("hb", "cost_promotion", "random"),
     ("synchb", "random"), ("synchb", "bayesopt"), ("dehb",), ("pbt",), ("msr",), ("moasha",),
     ("synchb", "random", "max"), ("synchb_custom", "min"), ("synchb_custom", "max"), ("dehb", "max"),
+    ("hb", "stopping", "bayesopt_dup"), ("hb", "promotion", "bayesopt_dup"),
 ]
 CUSTOM_RUNGS = [
     [[(6, 1), (3, 2), (1, 5)], [(4, 2), (2, 5)], [(2, 5)]],
@@ -124,6 +125,15 @@ def make_scheduler(kind, seed):
                 kw = dict(cost_attr="cost")
             if kind[2] == "bayesopt":
                 kw["search_options"] = so
+            if kind[2] == "bayesopt_dup":
+                # model-based phase on a small finite space with the non-default allow_duplicates=True: observed
+                # configurations may be suggested again, failed (and pending) ones must stay excluded
+                cs = {"x": choice(["a", "b", "c"]), "y": randint(0, 2), "epochs": MAX_T}
+                kw["search_options"] = {"num_init_random": 2, "allow_duplicates": True, "debug_log": False, "opt_maxiter": 3,
+                                        "opt_nstarts": 1, "num_init_candidates": 20}
+                return HyperbandScheduler(cs, searcher="bayesopt", type=kind[1], metric="m", mode="min", resource_attr="epoch",
+                                          max_resource_attr="epochs", grace_period=1, reduction_factor=3, brackets=1,
+                                          random_seed=seed, **kw)
             return HyperbandScheduler(cs, searcher=kind[2], type=kind[1], metric="m", mode="min", resource_attr="epoch",
                                       max_resource_attr="epochs", grace_period=1, reduction_factor=3,
                                       brackets=1 + seed % 2, random_seed=seed, **kw)
@@ -498,6 +508,43 @@ def staged_sync(kind, seed):
     return dict(problems=problems, stats=stats)
 
 
+def directed_failed_after_report(kind, seed):
+    """A trial reports the best value seen so far and then fails; the following suggestions (model-based phase) must not
+    propose its configuration again -- also with allow_duplicates=True."""
+    from syne_tune.backend.trial_status import Trial
+    rng = random.Random(seed)
+    sch = make_scheduler(kind, seed % 1000)
+    t0 = datetime.datetime(2020, 1, 1)
+    problems, failed_cfg = [], None
+    sink = io.StringIO()
+    try:
+        with contextlib.redirect_stdout(sink):
+            for i in range(14):
+                sug = sch.suggest(i)
+                if sug is None:
+                    break
+                if not sug.spawn_new_trial_id:
+                    continue
+                tr = Trial(trial_id=i, config=sug.config, creation_time=t0)
+                sch.on_trial_add(tr)
+                if failed_cfg is not None and hp(sug.config) == failed_cfg:
+                    problems.append(("failed_configuration_suggested_again", failed_cfg, "suggestion #%d" % i))
+                    break
+                d = sch.on_trial_result(tr, {"m": 0.01 if i == 1 else 0.2 + 0.7 * rng.random(), "m2": 0.5, "epoch": 1, "cost": 1.0})
+                if i == 1:
+                    if d != "CONTINUE":
+                        sch.on_trial_remove(tr)
+                    sch.on_trial_error(tr)
+                    failed_cfg = hp(sug.config)
+                elif d != "CONTINUE":
+                    sch.on_trial_remove(tr)
+                else:
+                    sch.on_trial_complete(tr, {"m": 0.2 + 0.7 * rng.random(), "m2": 0.5, "epoch": 1, "cost": 1.0})
+    except Exception as e:
+        problems.append(("exception", "directed_failed_after_report", type(e).__name__, str(e)[:160]))
+    return problems
+
+
 def result(rng, epoch):
     return {"m": rng.randint(1, 1000) / 1024.0, "m2": rng.randint(1, 1000) / 1024.0, "epoch": epoch,
             "cost": float(epoch)}
@@ -693,7 +740,7 @@ def run_tuner(spec):
     if cur["statuses"] is not None:
         polls.append(dict(cur))
     return dict(outcome=outcome, polls=polls, planned=bad, status=tuner.tuning_status, resumed=resumed,
-                num_failed=int(tuner.tuning_status.num_trials_failed))
+                num_failed=int(tuner.tuning_status.num_trials_failed), shown_failed=sorted(failed_seen))
 
 
 def coq_poll(p, with_calls=True):
@@ -765,6 +812,20 @@ def _run(ctx, replay):
             if kind[0] in ("fifo", "msr", "moasha") or (kind[0] == "hb" and "stopping" in kind[1]):
                 for _ in range(reps):
                     todo.append((kind, rng.randrange(10 ** 6), [("with_decision_report", 1)], rng.randint(60, 120), rng.randint(2, 4)))
+    dd = []
+    if replay is not None and replay.get("part") == "F":
+        dd = [(tuple(replay["kind"]), replay["seed"])]
+    elif replay is None:
+        for kind in (("hb", "stopping", "bayesopt_dup"), ("hb", "promotion", "bayesopt_dup")):
+            dd += [(kind, rng.randrange(10 ** 6)) for _ in range(ctx.n(5, 40))]
+    for kind, seed in dd:
+        case = dict(part="F", kind=list(kind), seed=seed)
+        probs = directed_failed_after_report(kind, seed)
+        ctx.count(case, nontrivial=True)
+        ctx.h("F_failed_after_report", "/".join(kind) + (":resuggested" if probs else ":ok"))
+        for prob in probs:
+            ctx.violation("property", "scheduler %s (allow_duplicates=True, model-based phase), seed %d: %r" % (
+                "/".join(kind), seed, prob), case=case, signature=signature_for(kind, prob))
     staged = []
     if replay is not None and replay.get("part") == "S":
         staged = [(tuple(replay["kind"]), replay["seed"])]
@@ -872,6 +933,14 @@ def _run(ctx, replay):
                     bad[str(t)] = [rng.choice([0, 1, 2]), "stopped", False]             # never paused before
             specs.append(dict(kind=list(kind), seed=rng.randrange(10 ** 6), ntrials=ntr, workers=rng.choice([1, 2, 3]),
                               max_failures=100, bad=bad, wait=rng.random() < 0.3, poll_cap=400))
+        # a job crashes right after a report the scheduler answers with STOP/PAUSE (both in one poll); small limits
+        for _ in range(ctx.n(10, 100)):
+            kind = rng.choice([("hb", "promotion", "random"), ("hb", "stopping", "random"), ("hb", "stopping", "random"),
+                               ("synchb", "random"), ("msr",)])
+            ntr = rng.randint(5, 10)
+            bad = {str(t): [rng.choice([0, 0, 2]), "failed", True] for t in range(ntr) if rng.random() < 0.5}
+            specs.append(dict(kind=list(kind), seed=rng.randrange(10 ** 6), ntrials=ntr, workers=rng.randint(1, 3),
+                              max_failures=rng.choice([0, 0, 1]), bad=bad, wait=rng.random() < 0.3))
         # directed (b-ckpt's scenario): one worker, every job fails before its first report
         specs.append(dict(kind=["synchb_custom", "min"], seed=2, ntrials=10, workers=1, max_failures=100,
                           bad={str(t): [0, "failed", False] for t in range(10)}, wait=False))
@@ -966,6 +1035,24 @@ def _run(ctx, replay):
                 if named not in failed_ids:
                     ctx.violation("property", "error names trial %d which did not fail (failed: %r)" % (named, failed_ids),
                                   case=case, signature=dict(part="tuner", check="error_names_non_failed_trial"))
+        # ground truth of the harness backend: the runs it reported as failed to the loop. A STOP/PAUSE answer in the
+        # same poll does not un-fail a job. (Runs in which a failed trial is later resumed -- known finding F-C13-1 --
+        # change the trial's last status and are left to that finding.)
+        shown = res["shown_failed"]
+        failed_resumed = any(was for (_, was) in res["resumed"])
+        ctx.h("B_ground_truth_failures", min(len(shown), 6))
+        if not failed_resumed and (out is None or named is not None):
+            if res["num_failed"] != len(shown):
+                ctx.violation("property", "the backend showed %d failed runs %r to the tuning loop but TuningStatus counts %d failed "
+                              "trials (spec %r)" % (len(shown), shown, res["num_failed"], spec), case=case,
+                              signature=dict(part="tuner", check="failed_count_differs_from_ground_truth"))
+            if len(shown) > spec["max_failures"] and out is None:
+                ctx.violation("property", "%d runs failed (%r) > max_failures = %d but Tuner.run() returned normally (spec %r)" % (
+                    len(shown), shown, spec["max_failures"], spec), case=case,
+                    signature=dict(part="tuner", check="failure_limit_not_enforced", ground_truth=True))
+            if named is not None and named not in shown:
+                ctx.violation("property", "error names trial %d which the backend never reported as failed (%r)" % (named, shown),
+                              case=case, signature=dict(part="tuner", check="error_names_non_failed_trial", ground_truth=True))
         ctx.h("B_wait_trial_completion", bool(spec.get("wait", False)))
         later_polls = 0
         seen_excess = False
